@@ -2,7 +2,7 @@ SPECIFICATION Spec
 CONSTANTS
   Worlds <- MC_WorldsSmall
   Queries <- MC_Queries
-  MaxFaults = 1
+  MaxFaults = 2
   FaultsOf <- MC_FaultsOf
   AsIs = {}
 INVARIANTS TypeOK C07_SecureImpliesChain C07_InsecureOnlyProven C07_TamperNeverDowngrades C07_NegSecure C07_AD C07_DepthBounded ModelComplete
